@@ -108,6 +108,9 @@ class Machine:
         self._cue_time = 0
         self._call_stack.reset(self._constants)
         self._vm_math.reset()
+        # Values of a printf that a previous run did not get to write (it was
+        # stopped or failed in between) are not output of the next run.
+        self._vm_io.reset()
         self._keep_running = True
         self._enable_pause = True
 
